@@ -8,6 +8,21 @@ print(json.dumps({k: v for k, v in r.items() if k not in ('step',)}, indent=1))
 hf = r.get('history_file')
 if hf and os.path.exists(hf):
     subprocess.run(['bash', os.path.join(V, 'scripts', 'prepare.sh')], stdout=subprocess.DEVNULL)
+    if str(r.get('profile', '')).startswith('twin:'):
+        # the stored file is the recorded consensus-input stream of replica A: replay it on a second replica under a few
+        # schedules of restarts / simulations / queries until one diverges
+        every = '1' if ':scenario:' in r['profile'] else '6'
+        for sd in range(1, 9):
+            o = subprocess.run([os.path.join(V, 'build', 'saoh'), 'replay', '--stream', hf, '--seed', str(sd), '--restart-every', every],
+                               stdout=subprocess.PIPE, text=True).stdout.strip().splitlines()
+            try:
+                j = json.loads(o[-1])
+            except Exception:
+                print('replay produced no summary:', o[-3:]); break
+            print(f"schedule seed {sd}: blocks {j.get('blocks')} restarts {j.get('restarts')} simulations {j.get('simulations')} divergences {len(j.get('divergences') or [])}")
+            if j.get('divergences'):
+                print('first divergence:', json.dumps(j['divergences'][0])[:600]); break
+        sys.exit(0)
     out = subprocess.run([os.path.join(V, 'build', 'runner'), hf], stdout=subprocess.PIPE, text=True).stdout
     for line in out.splitlines():
         if line.startswith(str(r.get('line', -1)) + ' '):
